@@ -264,6 +264,27 @@ fn extra_cases() -> Vec<Case> {
             }
         }
     }
+    // keys that look like the blank name, and properties that hold null, through every route
+    for key in ["_", "__", "_x", "x_", "null", "this", "true", "print", "in"] {
+        for val in ["1", "null", "\"s\""] {
+            let dot_ok = !["null", "true", "in"].contains(&key);
+            let mut progs = vec![
+                "o := {}\no[\"K\"] = V\nprint(o)\nprint(o[\"K\"])\n".to_string(),
+                "o := {\"K\": V, \"z\": 0}\nprint(o[\"K\"])\nk := \"K\"\nprint(o[k])\nprint(o[$\"${k}\"])\n".to_string(),
+                "o := {\"K\": V}\n{\"K\": got} := o\nprint(got)\nfor [k, v] in o {\nprint([k, v])\n}\nprint({o..})\n{..rest} := o\nprint(rest)\n".to_string(),
+                "o := {\"K\": V}\no[\"K\"] = [o[\"K\"]]\nprint(o)\np := {\"K\": V}\nprint(p == {\"K\": V})\n".to_string(),
+                "o := {\"K\": V}\nfn get(ob, k) {\nreturn ob[k]\n}\nprint(get(o, \"K\"))\nprint(get(o, \"missing\"))\n".to_string(),
+            ];
+            if dot_ok {
+                progs.push("o := {}\no.K = V\nprint(o)\nprint(o.K)\nprint(o[\"K\"])\no.K = [o.K]\nprint(o)\n".to_string());
+                progs.push("o := {\"K\": 5}\no.K += 2\nprint(o)\no.K -= 1\nprint(o[\"K\"])\no[\"K\"] *= 3\nprint(o.K)\n".to_string());
+                progs.push("o := {\"n\": {}}\no.n.K = V\nprint(o)\no.n.K = 7\nprint(o.n.K)\n".to_string());
+            }
+            for p in progs {
+                v.push(Case::new(p.replace('K', key).replace('V', val), 601, format!("key {:?} holding {}", key, val)));
+            }
+        }
+    }
     // a loop over an object walks the properties it had when the loop began, with the values they
     // had then
     for prog in [
